@@ -294,6 +294,17 @@ fn exchange_programs() -> Vec<(String, String)> {
                     format!("{n} counters, the last one called while a tuple temporary is live")));
         }
     }
+    // closures with their own state storage that call another closure in the middle of their body (the returning
+    // closure's cursor is reset, the caller's must survive): VM against WASM
+    let pre = "fn mycount(rate:float){\n  self + rate\n}\nfn hof(gen:()->(float)->float){\n  let g = gen()\n";
+    let post = "}\nlet f = hof(| |mycount)\nfn dsp(){\n  self + f(1.0)\n}\n";
+    for (body, desc) in [
+        ("  |x| { mycount(x) + mycount(x*10.0) + g(x*100.0) + mycount(x*1000.0) }\n", "a closure with three own cells calls another closure between its second and third cell"),
+        ("  |x| { g(x*100.0) + mycount(x) + mycount(x*10.0) + mycount(x*1000.0) }\n", "a closure with three own cells calls another closure first"),
+        ("  |x| { mycount(x) + g(x*100.0) + mycount(x*10.0) + g(x*1000.0) + mycount(x*7.0) }\n", "a closure calls another closure twice between its own cells"),
+    ] {
+        v.push((format!("{pre}{body}{post}"), desc.to_string()));
+    }
     v
 }
 /// every `Type` variant with empty / one-element / two-element aggregates (the hand-written serde pair of types/serde_impl.rs)
